@@ -2311,6 +2311,32 @@ simnet_set_seg(int fd, int mode, int k)
 	s->conn->segk[s->side]    = k;
 }
 
+void
+simnet_set_cut_peer(int fd, int dir, long offset)
+{
+	if (!is_sim_fd(fd) || ent(fd)->kind != FK_SOCK)
+		return;
+	Sock *s = (Sock *) ent(fd)->obj;
+	if (!s->conn)
+		return;
+	if (dir == 0)
+		s->conn->h[1 - s->side].cut_rd = offset;
+	else
+		s->conn->h[s->side].cut_wr = offset;
+}
+
+void
+simnet_set_seg_peer(int fd, int mode, int k)
+{
+	if (!is_sim_fd(fd) || ent(fd)->kind != FK_SOCK)
+		return;
+	Sock *s = (Sock *) ent(fd)->obj;
+	if (!s->conn)
+		return;
+	s->conn->segmode[1 - s->side] = mode;
+	s->conn->segk[1 - s->side]    = k;
+}
+
 static void
 release_half(Conn *c, int side)
 {
